@@ -262,6 +262,15 @@ func genC11(e *emitter, tier string) {
 				}
 			}
 		}
+		if i%8 == 3 {
+			// the same object twice, except that some map holds an explicit null under a
+			// key that only one side has (same size, different key sets)
+			if a, b, ok := nullSwap(e, deepCopy(l)); ok {
+				if ta, tb := typedOf(sd, tr, a, true), typedOf(sd, tr, b, true); ta != nil && tb != nil {
+					l, r = a, b
+				}
+			}
+		}
 		tl, tr2 := typedOf(sd, tr, l, true), typedOf(sd, tr, r, true)
 		if tl == nil || tr2 == nil {
 			continue
@@ -270,6 +279,57 @@ func genC11(e *emitter, tier string) {
 		e.line(fmt.Sprintf("(c11 %s %s %s %s %s %s %s)", quote(sd.id), sexpTypeRef(tr), sexpValue(l), sexpValue(r),
 			doCompare(tl, tr2), doCompare(tr2, tl), doCompare(null, tr2)))
 	}
+}
+
+// two copies of v in which one randomly chosen map got a null under a key of its own
+func nullSwap(e *emitter, v interface{}) (interface{}, interface{}, bool) {
+	var maps []M
+	var walk func(x interface{})
+	walk = func(x interface{}) {
+		switch t := x.(type) {
+		case M:
+			maps = append(maps, t)
+			for _, k := range sortedKeys(t) {
+				walk(t[k])
+			}
+		case L:
+			for _, y := range t {
+				walk(y)
+			}
+		}
+	}
+	walk(v)
+	if len(maps) == 0 {
+		return nil, nil, false
+	}
+	// the copies are made by marking the chosen map first
+	target := maps[e.rng.Intn(len(maps))]
+	target["\x00mark"] = true
+	var cp func(x interface{}, key string) interface{}
+	cp = func(x interface{}, key string) interface{} {
+		switch t := x.(type) {
+		case M:
+			out := M{}
+			for k, y := range t {
+				if k == "\x00mark" {
+					out[key] = nil
+					continue
+				}
+				out[k] = cp(y, key)
+			}
+			return out
+		case L:
+			out := make(L, len(t))
+			for i, y := range t {
+				out[i] = cp(y, key)
+			}
+			return out
+		}
+		return x
+	}
+	a, b := cp(v, "zna"), cp(v, "znb")
+	delete(target, "\x00mark")
+	return a, b, true
 }
 
 // ---------- C12 ----------
